@@ -126,7 +126,7 @@ def run_mod(c) -> CaseResult:
         return res
     # modules that contain RMS normalisation compute its denominator in float32 by design: a code generator may legitimately
     # fuse / reorder that float32 arithmetic, so only float32-level agreement can be asked of them
-    f32_inside = cls in ("RMSNorm", "TransformerLayer", "TransformerDecoder")
+    f32_inside = cls in ("RMSNorm", "TransformerLayer", "TransformerDecoder") or c.get("dtype") == "float32"
     if not close(yc, y, 2e-5 if f32_inside else 1e-10):
         res.fail(f"C20.compile.value:{cls}", f"compiled ({c['backend']}) module output differs from eager: max {(yc - y).abs().max().item():.3g}")
     for i, (a, b) in enumerate(zip(gc, g)):
